@@ -579,7 +579,16 @@ func TestVerifC15(t *testing.T) {
 				k := rng.Intn(len(pending))
 				p := pending[k]
 				useNode(p.node)
-				p.solver.CleanUp(ctx, chals[p.chal].Challenge)
+				// (an order that was cancelled cleans up under its cancelled context: the challenge is
+				// gone all the same, here and on every other node)
+				cctx := ctx
+				if rng.Intn(3) == 0 {
+					c2, cancel := context.WithCancel(ctx)
+					cancel()
+					cctx = c2
+					o.Stat("cleanups_under_cancelled_context", 1)
+				}
+				p.solver.CleanUp(cctx, chals[p.chal].Challenge)
 				tf := "0"
 				if p.test {
 					tf = "1"
